@@ -370,13 +370,48 @@ CANARY_RAW = {
 }
 
 
+def serialize_case_auth(chk):
+    """`RequestsTransport.serialize_case`: the provider's requests-level auth object (`case._auth`) is among the keyword
+    arguments for every body / media type (model: transportExtra .serializerThenAuth; theorem requests_auth_reaches_request)"""
+    from requests.auth import HTTPBasicAuth
+    from schemathesis.core import NOT_SET
+    from schemathesis.transport.requests import RequestsTransport
+    raw = {"openapi": "3.0.2", "info": {"title": "t", "version": "1"}, "paths": {"/b": {"post": {
+        "requestBody": {"content": {mt: {"schema": {"type": "object"}} for mt in
+                                    ("application/json", "application/x-www-form-urlencoded", "multipart/form-data", "text/plain",
+                                     "application/xml", "application/octet-stream")}},
+        "responses": {"200": {"description": "ok"}}}}}}
+    op = schemathesis.openapi.from_dict(raw).configure(base_url="http://127.0.0.1:9")["/b"]["POST"]
+    auth = HTTPBasicAuth("ru", "CANARY-R")
+    bodies = {"application/json": {"a": 1}, "application/x-www-form-urlencoded": {"a": "1"}, "multipart/form-data": {"a": "1"},
+              "text/plain": "x", "application/xml": {"a": 1}, "application/octet-stream": b"x"}
+    for mt, body in list(bodies.items()) + [(None, NOT_SET)]:
+        for with_auth in (True, False):
+            case = op.Case(body=body, media_type=mt) if mt else op.Case()
+            case._auth = auth if with_auth else None
+            try:
+                data = RequestsTransport().serialize_case(case, base_url="http://127.0.0.1:9")
+                got = data.get("auth", "absent")
+            except Exception as e:  # noqa: BLE001
+                got = f"raises:{type(e).__name__}"
+            chk.case("serialize_case:auth", key=[mt, with_auth], nontrivial=True, sample={"media_type": mt, "auth": with_auth, "got": repr(got)})
+            chk.feature(f"serialize_case:auth:{mt}")
+            want = auth if with_auth else "absent"
+            if isinstance(got, str) and got.startswith("raises:"):
+                continue
+            if got is not want and got != want:
+                chk.violation("C14:serialize_case:requests-auth-object-missing-from-the-request-arguments",
+                              f"serialize_case of a case with media type {mt} and case._auth {'set' if with_auth else 'unset'} gives "
+                              f"auth={got!r}", {"media_type": mt, "with_auth": with_auth})
+
+
 def canary_runs(chk, n):
     from flask import Flask, jsonify, request
     from schemathesis.engine.config import EngineConfig, NetworkConfig
     from schemathesis.engine.phases import PhaseName
     from schemathesis.generation.overrides import Override
     rng = chk.rng
-    for _ in range(n):
+    for run_i in range(n):
         log: list = []
         app = Flask("canary")
 
@@ -388,10 +423,13 @@ def canary_runs(chk, n):
                 return jsonify({"id": 5}), 201
             return jsonify({}), 200
 
-        use_auth = rng.random() < 0.5
+        kind = ("--auth", "provider", "requests-auth", "none")[run_i % 4]      # every kind of credential in every run of the check
+        use_auth = kind == "--auth"
         use_hdr = rng.random() < 0.8
         use_ov = rng.random() < 0.7
-        use_provider = (not use_auth) and rng.random() < 0.5
+        use_provider = kind == "provider"
+        # a `requests` auth object given to the schema (schema.auth.set_from_requests): travels as `case._auth`
+        use_requests_auth = kind == "requests-auth"
         workers = rng.choice([1, 2])
         hdrs = {"X-Canary": "CANARY-H", "X-Other": "CANARY-O"} if use_hdr else {}
         ov = Override(query={"q": "CANARY-Q"}, headers={}, cookies={"sid": "CANARY-C"}, path_parameters={}) if use_ov else None
@@ -406,6 +444,9 @@ def canary_runs(chk, n):
                     def set(self, case, data, ctx):
                         case.headers = case.headers or CaseInsensitiveDict()
                         case.headers["X-Auth-Token"] = data
+            if use_requests_auth:
+                from requests.auth import HTTPBasicAuth
+                schema.auth.set_from_requests(HTTPBasicAuth("ru", "CANARY-R"))
             base = E.engine_config(phases=[PhaseName.EXAMPLES, PhaseName.COVERAGE, PhaseName.FUZZING, PhaseName.STATEFUL_TESTING],
                                    workers=workers, max_examples=3, stateful_step_count=3, seed=rng.randint(1, 9999))
             cfg = EngineConfig(execution=base.execution,
@@ -419,7 +460,15 @@ def canary_runs(chk, n):
         for ph in phases_run:
             chk.feature(f"canary-phase:{ph}")
         basic = "Basic " + base64.b64encode(b"u:CANARY-P").decode()
+        rbasic = "Basic " + base64.b64encode(b"ru:CANARY-R").decode()
+        chk.feature(f"canary-credentials:{'--auth' if use_auth else 'provider' if use_provider else 'requests-auth' if use_requests_auth else 'none'}")
         for r in log:
+            if use_requests_auth and r["headers"].get("authorization") != rbasic:
+                chk.violation("C14:request:requests-auth-object-missing",
+                              f"request {r['method']} {r['path']} lacks the credentials of the requests auth object registered with "
+                              f"schema.auth.set_from_requests (got Authorization={r['headers'].get('authorization')!r}; "
+                              f"body {'present' if r['method'] == 'POST' else 'absent'})",
+                              {"request": r, "requests_auth": True, "override": use_ov, "headers": hdrs})
             ctx = {"request": r, "headers": hdrs, "auth": use_auth, "override": use_ov, "provider": use_provider}
             for k, v in hdrs.items():
                 if r["headers"].get(k.lower()) != v:
@@ -1206,7 +1255,8 @@ def run(chk):
     storage_corr(chk, chk.budget(200, 3000))
     storage_filters_corr(chk, chk.budget(150, 2000))
     cache_threads(chk, chk.budget(4, 30))
-    canary_runs(chk, chk.budget(6, 60))
+    serialize_case_auth(chk)
+    canary_runs(chk, chk.budget(8, 60))
     probe_runs(chk, chk.budget(4, 30))
     variant = detect_kwargs_variant(chk)
     overrides_corr(chk, chk.budget(25, 400), variant)
